@@ -13,11 +13,24 @@
 //       every quaternion recomputed from q has unit length within that norm
 //   * always: prescribed motion exact (locked q bitwise, locked u = 0, Sinusoid q/u = a sin(wt+p), a w cos(wt+p)); state finite.
 // Integration failures (exceptions) are allowed outcomes and counted.
+//
+// OPTIONS section (namespace opt): integrator x scenario x model x the integrator OPTIONS under which projection is decided:
+//   step-size control {adaptive, setFixedStepSize(hA|hB|hC), setMinimumStepSize(hB), setMaximumStepSize(hA)} (h from a table per
+//   integrator x accuracy: error estimate mostly below accuracy / inside (accuracy, 2^p accuracy] / beyond) x setProjectEveryStep {not
+//   called, false, true} x setProjectInterpolatedStates x setUseInfinityNorm x setConstraintTolerance {not called, looser, tighter than
+//   accuracy/10} x accuracy; scenarios: no event, {triggered, scheduled} x handler {no-op, leaves q 10 x tolerance off, leaves u off,
+//   jumps q and u and projects itself}.  Same manifold oracle; interpolated REPORT states are exempt when interpolated-state projection
+//   is off, step states and the states after events never are.  Documented (System::handleEvents): a handler that changes continuous
+//   variables must leave the state within the tolerance -> the one state returned right after a handler that did not is not judged
+//   (counted), every later one is; the state returned after a handler changed q/u must be the handler's state, bit for bit, with status
+//   StartOfContinuousInterval.
 #include "Simbody.h"
 #include "verif.h"
 #include "models.h"
 #include "consmodels.h"
 #include "refkit.h"
+#include "IntegratorRep.h"           // white box: OPTIONS section, naming the regime of a violating step (opt::reattempt)
+#include "AbstractIntegratorRep.h"
 
 using namespace SimTK;
 using ref::LD;
@@ -225,19 +238,352 @@ static void runAll(verif::Run& run, Sut& S, const State& init, const OptSpace& s
     }
 }
 
+
+// =====================================================================================================================
+// OPTIONS section: the integrator options under which projection is decided x state-modifying / scheduled event handlers.
+// The Sut, the manifold norms and the bound are those of the sections above (normsOf() repeats Judge::state's formulas).
+// =====================================================================================================================
+namespace opt {
+
+enum { SC_ADAPTIVE, SC_FIXED_A, SC_FIXED_B, SC_FIXED_C, SC_MIN_B, SC_MAX_A, NSC };
+static const char* scName(int s) { static const char* n[] = {"adaptive", "fixed-hA", "fixed-hB", "fixed-hC", "min-hB", "max-hA"}; return n[s]; }
+enum { EV_NONE, EV_TRIG_NOOP, EV_TRIG_Q, EV_TRIG_U, EV_TRIG_WELL, EV_SCHED_NOOP, EV_SCHED_Q, EV_SCHED_U, EV_SCHED_WELL, NEV };
+static const char* evName(int e) { static const char* n[] = {"no-event", "triggered/handler-noop", "triggered/handler-perturbs-q", "triggered/handler-perturbs-u", "triggered/handler-jumps-q-u-and-projects",
+    "scheduled/handler-noop", "scheduled/handler-perturbs-q", "scheduled/handler-perturbs-u", "scheduled/handler-jumps-q-u-and-projects"}; return n[e]; }
+enum { ACT_NOOP, ACT_Q, ACT_U, ACT_WELL };
+static int evKind(int ev) { return ev == EV_NONE ? 0 : (ev <= EV_TRIG_WELL ? 1 : 2); }      // 0 none, 1 triggered, 2 scheduled
+static int evAction(int ev) { return ev == EV_NONE ? ACT_NOOP : (ev - 1) % 4; }
+static const Real TRIG_T = 0.0537, SCHED_T[2] = {0.0411, 0.0925};
+
+static const double ACCS[2] = {1e-3, 1e-6};
+static const int NPES = 3, NINTERP = 2, NINF = 2, NTOL = 3, NACC = 2, NREST = NINTERP * NINF * NTOL * NACC;
+struct Cfg { int integ, stepctl, pes /*0 not called, 1 false, 2 true*/, interp /*0 interpolated states projected, 1 not projected*/, inf, tol /*0 default, 1 loose, 2 tight*/, acc; };
+static double accOf(const Cfg& c) { return ACCS[c.acc]; }
+static double tolOf(const Cfg& c) { const double a = accOf(c); return c.tol == 0 ? a / 10 : (c.tol == 1 ? a : a / 100); }
+
+// step sizes per integrator x accuracy: hA (local error estimate mostly below accuracy), hB (mostly between accuracy and 2^p x accuracy,
+// the window in which a failed step is still projected), hC (mostly above the window).  Calibrated on the unchanged tree (notes/C21.md);
+// value set (seed%3) scales them by {1, 1.25, 0.8}.
+static double hTable(int integ, int acc, int cls, int vs) {
+    static const double T[NINTEG][2][3] = {
+        /* RungeKuttaMerson   */ {{0.04, 0.15, 0.3}, {0.006, 0.05, 0.2}},
+        /* RungeKutta3        */ {{0.01, 0.07, 0.3}, {0.001, 0.0075, 0.05}},
+        /* RungeKuttaFeldberg */ {{0.05, 0.15, 0.3}, {0.02, 0.12, 0.3}},
+        /* RungeKutta2        */ {{0.0025, 0.018, 0.09}, {0.00025, 0.00057, 0.0028}},
+        /* ExplicitEuler      */ {{0.002, 0.011, 0.06}, {0.00025, 0.0007, 0.003}},
+        /* Verlet             */ {{0.004, 0.02, 0.1}, {0.001, 0.0055, 0.03}},
+        /* SemiExplicitEuler  */ {{0.002, 0.011, 0.06}, {0.00025, 0.0007, 0.003}},
+        /* SemiExplicitEuler2 */ {{0.002, 0.011, 0.06}, {0.00025, 0.0007, 0.003}},
+        /* CPodes(BDF)        */ {{0.003, 0.02, 0.1}, {0.0006, 0.006, 0.03}},
+        /* CPodes(Adams)      */ {{0.003, 0.02, 0.1}, {0.0006, 0.006, 0.03}}};
+    static const double scale[3] = {1, 1.25, 0.8};
+    return T[integ][acc][cls] * scale[vs];
+}
+static double hOf(const Cfg& c, int vs) {
+    switch (c.stepctl) { case SC_FIXED_A: case SC_MAX_A: return hTable(c.integ, c.acc, 0, vs); case SC_FIXED_B: case SC_MIN_B: return hTable(c.integ, c.acc, 1, vs); case SC_FIXED_C: return hTable(c.integ, c.acc, 2, vs); default: return 0; }
+}
+static std::string cfgStr(const Cfg& c, int vs) {
+    static const char* pn[] = {"projectEveryStep:default", "projectEveryStep:false", "projectEveryStep:true"}, *tn[] = {"tol=default", "tol=loose(=acc)", "tol=tight(=acc/100)"};
+    std::string s = std::string(integName(c.integ)) + " stepctl=" + scName(c.stepctl);
+    if (c.stepctl != SC_ADAPTIVE) s += "(h=" + verif::fmtd(hOf(c, vs)) + ")";
+    return s + " " + pn[c.pes] + (c.interp ? " interpolated-states-unprojected" : " interpolated-states-projected") + (c.inf ? " infnorm" : " rms") + " acc=" + (c.acc ? "1e-6" : "1e-3") + " " + tn[c.tol];
+}
+
+// ---------------------------------------------------------------- event handlers that change the state
+struct HandlerCtl {
+    const MultibodySystem* sys = nullptr; int action = ACT_NOOP; bool inf = false; Real t0 = 0;
+    int fired = 0; bool haveOut = false; Vector qOut, uOut;
+};
+static const Real PERT[8] = {1, -0.7, 0.5, -1.3, 0.9, -0.4, 1.1, -0.8};
+static void handlerAct(HandlerCtl& c, State& s, Real accuracy) {
+    ++c.fired;
+    if (c.action == ACT_NOOP) return;
+    if (c.action == ACT_Q || c.action == ACT_WELL) { const Real d = c.action == ACT_Q ? 10 * accuracy : 2e-3; Vector& q = s.updQ(); for (int i = 0; i < q.size(); ++i) q[i] += d * PERT[i % 8]; }
+    if (c.action == ACT_U || c.action == ACT_WELL) { const Real d = c.action == ACT_U ? 10 * accuracy : 5e-2; Vector& u = s.updU(); for (int i = 0; i < u.size(); ++i) u[i] += d * PERT[(i + 3) % 8]; }
+    if (c.action == ACT_WELL) {   // "the handler is required to make sure the returned state satisfies the constraints to the accuracy level specified" (System::handleEvents)
+        ProjectOptions po(accuracy); if (c.inf) po.setOption(ProjectOptions::UseInfinityNorm);
+        ProjectResults r; Vector none;
+        c.sys->realize(s, Stage::Time); c.sys->prescribeQ(s); c.sys->realize(s, Stage::Position);
+        c.sys->projectQ(s, none, po, r);
+        c.sys->prescribeU(s); c.sys->realize(s, Stage::Velocity);
+        r.clear(); c.sys->projectU(s, none, po, r);
+    }
+    c.qOut = s.getQ(); c.uOut = s.getU(); c.haveOut = true;
+}
+class TrigHandler : public TriggeredEventHandler {
+public:
+    explicit TrigHandler(HandlerCtl* c) : TriggeredEventHandler(Stage::Time), c(c) {}
+    Real getValue(const State& s) const override { return s.getTime() - (c->t0 + TRIG_T); }      // a witness on time: its sign is exact
+    void handleEvent(State& s, Real accuracy, bool&) const override { handlerAct(*c, s, accuracy); }
+private:
+    HandlerCtl* c;
+};
+class SchedHandler : public ScheduledEventHandler {
+public:
+    explicit SchedHandler(HandlerCtl* c) : c(c) {}
+    Real getNextEventTime(const State& s, bool includeCurrentTime) const override {
+        for (Real dt : SCHED_T) { const Real te = c->t0 + dt; if (te > s.getTime() || (includeCurrentTime && te == s.getTime())) return te; }
+        return Infinity;
+    }
+    void handleEvent(State& s, Real accuracy, bool&) const override { handlerAct(*c, s, accuracy); }
+private:
+    HandlerCtl* c;
+};
+
+// ---------------------------------------------------------------- norms of a state realized to Velocity (the formulas of Judge::state)
+struct Norms { LD perr, quat, verr; };
+static Norms normsOf(const Sut& S, const State& s, bool inf) {
+    mb::Model& M = *S.M;
+    const Vector& e = s.getQErr(); const Vector& w = s.getQErrWeights();
+    const int mq = M.matter.getNumQuaternionsInUse(s), mh = e.size() - mq;
+    std::vector<LD> a(mh), b(mq), c;
+    for (int i = 0; i < mh; ++i) a[i] = (LD)e[i] * (LD)w[i];
+    for (int i = 0; i < mq; ++i) b[i] = e[mh + i];
+    for (int q0 : S.quatStart) { LD ss = 0; for (int k = 0; k < 4; ++k) ss += (LD)s.getQ()[q0 + k] * (LD)s.getQ()[q0 + k]; c.push_back(sqrtl(ss) - 1); }
+    const Vector& ve = s.getUErr(); const Vector& vw = s.getUErrWeights();
+    std::vector<LD> v(ve.size()); for (int i = 0; i < ve.size(); ++i) v[i] = (LD)ve[i] * (LD)vw[i];
+    return Norms{normOf(a, inf), std::max(normOf(b, inf), normOf(c, inf)), normOf(v, inf)};
+}
+static bool within(LD n, Real tol) { return (double)((n - NORM_ABS) / tol) <= 1 + NORM_REL; }
+
+static Integrator* makeIntegratorOpt(const Cfg& c, const System& sys, int vs) {
+    if (c.integ == 6) return new SemiExplicitEulerIntegrator(sys, c.stepctl == SC_ADAPTIVE ? 0.004 : hOf(c, vs));   // no error control: the step size is a constructor argument
+    return makeIntegrator(c.integ, sys);
+}
+static void configure(Integrator& I, const Cfg& c, int vs, Real tFinal) {
+    I.setAccuracy(accOf(c));
+    if (c.tol) I.setConstraintTolerance(tolOf(c));
+    if (c.pes) I.setProjectEveryStep(c.pes == 2);
+    I.setAllowInterpolation(true);
+    I.setProjectInterpolatedStates(c.interp == 0);
+    I.setUseInfinityNorm(c.inf != 0);
+    I.setReturnEveryInternalStep(true);
+    I.setFinalTime(tFinal);
+    const Real h = hOf(c, vs);
+    switch (c.stepctl) {
+        case SC_FIXED_A: case SC_FIXED_B: case SC_FIXED_C: I.setFixedStepSize(h); break;
+        case SC_MIN_B: I.setMinimumStepSize(h); break;
+        case SC_MAX_A: I.setMaximumStepSize(h); break;
+        default: break;
+    }
+}
+
+// White box, used ONLY to name the regime of a step state that already violates the oracle at a user-limited (fixed / minimum) step
+// size: the step [tPrev, tAdvanced] is re-attempted on a twin integrator from the original's saved start of step.
+//   "error-estimate-beyond-projection-window": the ODE step converged and its error estimate exceeds 2^p x accuracy (the step is
+//        "not worth projecting" for attemptDAEStep, yet adjustStepSize accepts it because the step size cannot shrink);
+//   "after-convergence-failure": attemptDAEStep reports failure (e.g. projection did not converge), yet the step is accepted.
+// Also used in calibration mode (C21_CALIB) to histogram the error estimate of every fixed-size step.
+struct Regime { bool valid = false, odeConverged = false, daeConverged = false; Real errOverAcc = NaN; int errOrder = 0; };
+static Regime reattempt(Sut& S, const Integrator& I, const Cfg& c, int vs, const State& init, std::unique_ptr<Integrator>& twin) {
+    Regime R;
+    const AbstractIntegratorRep* ar = dynamic_cast<const AbstractIntegratorRep*>(&I.getRep());
+    if (!ar) return R;
+    try {
+        if (!twin) { twin.reset(makeIntegratorOpt(c, S.M->system, vs)); configure(*twin, c, vs, init.getTime() + HORIZON); twin->initialize(init); }
+        AbstractIntegratorRep& tr = dynamic_cast<AbstractIntegratorRep&>(twin->updRep());
+        const Real t1 = I.getAdvancedState().getTime();
+        if (!(t1 > ar->getPreviousTime())) return R;      // not the end of a step (e.g. the initial state)
+        auto restart = [&] {
+            State& adv = tr.updAdvancedState();
+            adv = I.getAdvancedState();
+            adv.updTime() = ar->getPreviousTime(); adv.updY() = ar->getPreviousY();
+            tr.realizeStateDerivatives(adv);
+            tr.saveStateAndDerivsAsPrevious(adv);
+        };
+        const int ny = I.getAdvancedState().getNY();
+        if (c.integ <= 3) {     // the integrators that use AbstractIntegratorRep::attemptDAEStep
+            restart();
+            Vector yErrEst(ny); int errOrder = 0, nIt = 1, worst;
+            bool conv = false;
+            try { conv = tr.attemptODEStep(t1, yErrEst, errOrder, nIt); } catch (...) { conv = false; }
+            R.odeConverged = conv; R.errOrder = errOrder;
+            if (conv) R.errOverAcc = tr.calcErrorNorm(tr.getAdvancedState(), yErrEst, worst) / tr.getAccuracyInUse();
+        }
+        restart();
+        { Vector yErrEst(ny); int errOrder = 0, nIt = 1; R.daeConverged = tr.attemptDAEStep(t1, yErrEst, errOrder, nIt); if (c.integ > 3) R.errOrder = errOrder; }
+        R.valid = true;
+    } catch (const std::exception&) { R.valid = false; }
+    return R;
+}
+static std::string regimeName(const Cfg& c, const Regime& R) {
+    if (!R.valid) return "";
+    if (c.integ <= 3 && R.odeConverged && R.errOverAcc > std::pow(2.0, R.errOrder)) return "step-accepted-at-user-limited-step-size/error-estimate-beyond-projection-window";
+    if (!R.daeConverged) return "step-accepted-at-user-limited-step-size/after-convergence-failure";
+    return "";
+}
+
+struct OJudge {
+    verif::Run& run; Sut& S; const Cfg& c; int vs; const State& init; const std::string& desc; const std::string integ;
+    int64_t nJudged = 0, nInterp = 0, nUnprojected = 0;
+    int postEvent = 0;            // 0 no, 1 first return after a triggered event was handled, 2 after a scheduled event
+    bool handlerLeftOff = false;  // the handler's output state violates the tolerance (the handler, not the integrator, is responsible for it)
+    bool fromOff = false;         // the current step starts from such a state
+    const HandlerCtl* ctl = nullptr; bool checkOut = false;
+    Real prevT = -Infinity, prevStepT = -Infinity; std::string prevStatus;
+    std::unique_ptr<Integrator> twin;
+    void state(const Integrator& I, const State& s, bool interpolated, const char* status) {
+        mb::Model& M = *S.M;
+        const Real tol = I.getConstraintToleranceInUse(); const bool inf = c.inf != 0, projInterp = c.interp == 0;
+        auto where = [&] { return desc + " status=" + status + " t=" + verif::fmtd(s.getTime()) + (interpolated ? " (interpolated)" : ""); };
+        auto rp = [&] { return run.replayHeader() + where() + "\n"; };
+        ++nJudged; if (interpolated) ++nInterp;
+        if (!run.expect(allFinite(s.getQ()) && allFinite(s.getU()), "returned-state-not-finite/" + integ, where, rp)) return;
+        if (postEvent && checkOut && ctl && ctl->haveOut) {     // the state returned after a handler changed q/u is the handler's state
+            bool same = !interpolated && s.getNQ() == ctl->qOut.size() && s.getNU() == ctl->uOut.size();
+            for (int i = 0; same && i < s.getNQ(); ++i) same = sameBits(s.getQ()[i], ctl->qOut[i]);
+            for (int i = 0; same && i < s.getNU(); ++i) same = sameBits(s.getU()[i], ctl->uOut[i]);
+            run.expect(same && std::string(status) == "StartOfContinuousInterval", "state-after-handler-is-not-the-handlers-state/" + integ, where, rp);
+            checkOut = false;
+        }
+        try { M.system.realize(s, Stage::Velocity); } catch (const std::exception&) { run.count("unspecified:returned-state-cannot-be-realized"); return; }
+        if (interpolated && !projInterp) { ++nUnprojected; return; }
+        if (postEvent && handlerLeftOff) {   // documented: the HANDLER must leave the state within tolerance; nothing is promised for this state
+            run.count("unspecified:first-state-after-a-handler-that-left-the-state-off-the-manifold/" + integ);
+            prevT = s.getTime(); prevStatus = status; prevStepT = s.getTime(); fromOff = true; handlerLeftOff = false; return;
+        }
+        const bool sameStateAgain = prevStatus == "ReachedReportTime" && s.getTime() == prevT;
+        const bool stalled = !interpolated && !postEvent && !sameStateAgain && s.getTime() - prevStepT < 1e-5 && std::string(status) == "TimeHasAdvanced";
+        if (stalled) run.count("stalled-steps(h<1e-5)/" + integ);
+        std::string kind = interpolated ? (fromOff ? "interpolated-in-first-step-after-handler-left-state-off-manifold" : "interpolated")
+            : postEvent == 1 ? "first-state-after-event-handling" : postEvent == 2 ? "first-state-after-scheduled-event-handling"
+            : fromOff ? "first-step-after-handler-left-state-off-manifold" : std::string(status) == "ReachedScheduledEvent" ? "state-at-scheduled-event" : stalled ? "step-with-h-below-1e-5" : "step";
+        const bool ordinaryStep = !interpolated && !postEvent;     // the end of an internal step exactly as takeOneStep left it
+        if (!interpolated) fromOff = false;
+        prevT = s.getTime(); prevStatus = status; if (!interpolated) prevStepT = s.getTime();
+        const Norms n = normsOf(S, s, inf);
+        if (run.verbose && getenv("C21_TRACE")) printf("    t=%.17g %-26s %s perr/tol=%.3g quat/tol=%.3g verr/tol=%.3g\n", s.getTime(), status, interpolated ? "I" : " ", (double)(n.perr / tol), (double)(n.quat / tol), (double)(n.verr / tol));
+        const bool limited = c.stepctl >= SC_FIXED_A && c.stepctl <= SC_MIN_B;
+        static const bool calib = getenv("C21_CALIB") != nullptr;
+        if (limited && ordinaryStep && (calib || !within(n.perr, tol) || !within(n.quat, tol) || !within(n.verr, tol))) {
+            const Regime R = reattempt(S, I, c, vs, init, twin);
+            const std::string r = regimeName(c, R);
+            if (calib && R.valid) {
+                const double w = std::pow(2.0, R.errOrder);
+                const char* cls = c.integ > 3 ? (R.daeConverged ? "converged" : "not-converged") : !R.odeConverged ? "ode-not-converged" : R.errOverAcc <= 1 ? "below-accuracy" : R.errOverAcc <= w ? "in-window" : "beyond-window";
+                run.count(std::string("calib:error-estimate/") + integ + "/acc=" + (c.acc ? "1e-6" : "1e-3") + "/" + scName(c.stepctl) + "/" + cls);
+                if (c.integ <= 3 && R.odeConverged && getenv("C21_CALIB_H")) {   // h at which this step's estimate would equal the accuracy (err ~ h^p): log2 buckets of h* = h (acc/err)^(1/p)
+                    const double hs = (I.getAdvancedState().getTime() - I.getRep().getPreviousTime()) * std::pow(1 / std::max(R.errOverAcc, 1e-300), 1.0 / R.errOrder);
+                    char b[64]; snprintf(b, sizeof b, "%+03d", (int)std::floor(2 * std::log2(hs)));
+                    run.count(std::string("calibh:") + integ + "/acc=" + (c.acc ? "1e-6" : "1e-3") + "/p=" + std::to_string(R.errOrder) + "/2log2(hstar)=" + b);
+                }
+            }
+            if (!(within(n.perr, tol) && within(n.quat, tol) && within(n.verr, tol))) { run.count("limited-step-violations-classified/" + (!R.valid ? std::string("not-an-AbstractIntegratorRep-step") : r.empty() ? std::string("ordinary-step") : r)); if (!r.empty()) kind = r; }
+        }
+        // the kinds that exist only in this section are judged by ONE residual, the largest of the three ratios (equivalent to the three
+        // separate comparisons; keeps the number of keys per regime at one per integrator); the kinds shared with the sections above keep
+        // their three oracles and keys
+        const bool oneKey = kind == "state-at-scheduled-event" || kind.compare(0, 40, "step-accepted-at-user-limited-step-size/") == 0;
+        const double rP = (double)((n.perr - NORM_ABS) / tol), rQ = (double)((n.quat - NORM_ABS) / tol), rV = (double)((n.verr - NORM_ABS) / tol);
+        if (oneKey) {
+            const double worst = (std::isnan(rP) || std::isnan(rQ) || std::isnan(rV)) ? NaN : std::max(rP, std::max(rQ, rV));
+            run.residual("constraint-norm/tolerance:" + integ, worst, 1 + NORM_REL, [&] { return where() + " perr/tol=" + verif::fmtd(rP) + " quat/tol=" + verif::fmtd(rQ) + " verr/tol=" + verif::fmtd(rV); }, rp, kind);
+            return;
+        }
+        run.residual("perr-norm/tolerance:" + integ, rP, 1 + NORM_REL, where, rp, kind + (S.touchesQuat ? "/constraint-on-quaternion-component" : ""));
+        run.residual("quaternion-norm/tolerance:" + integ, rQ, 1 + NORM_REL, where, rp, kind);
+        run.residual("verr-norm/tolerance:" + integ, rV, 1 + NORM_REL, where, rp, kind);
+    }
+};
+
+// one integration run, driven the way TimeStepper::stepTo drives an Integrator (scheduled event time from the System, handleEvents on
+// the advanced state, reinitialize with the lowest modified stage)
+static void integrateOpt(verif::Run& run, Sut& S, const State& init, const Cfg& c, int vs, int ev, HandlerCtl& ctl, const std::string& desc) {
+    mb::Model& M = *S.M;
+    std::unique_ptr<Integrator> I(makeIntegratorOpt(c, M.system, vs));
+    const std::string integ = integName(c.integ);
+    const Real t0 = init.getTime();
+    configure(*I, c, vs, t0 + HORIZON);
+    ctl.action = evAction(ev); ctl.inf = c.inf != 0; ctl.t0 = t0; ctl.fired = 0; ctl.haveOut = false;
+    OJudge J{run, S, c, vs, init, desc, integ}; J.ctl = &ctl;
+    run.evaluationDistinct(true);
+    const std::string tag = std::string(scName(c.stepctl)) + "/" + integ;
+    int eventsHandled = 0; bool reachedMin = false;
+    try {
+        I->initialize(init);
+        const Real tolUse = I->getConstraintToleranceInUse();
+        if (I->methodHasErrorControl()) run.expect(tolUse == tolOf(c), "constraint-tolerance-in-use/" + integ, [&] { return "tolerance in use " + verif::fmtd(tolUse) + " expected " + verif::fmtd(tolOf(c)) + ": " + desc; });
+        J.state(*I, I->getState(), false, "Initialized");
+        int k = 1, returns = 0; bool ended = false; Real lastEventTime = -Infinity;
+        HandleEventsOptions hopts(tolUse); if (I->isInfinityNormInUse()) hopts.setOption(HandleEventsOptions::UseInfinityNorm);
+        Array_<EventId> schedIds;
+        while (!ended && returns < MAX_RETURNS) {
+            const Real tReport = t0 + k * REPORT_DT;
+            Real tSched = Infinity;
+            if (evKind(ev) == 2) {
+                M.system.realize(I->getState(), Stage::Time); M.system.realize(I->getAdvancedState(), Stage::Time);
+                M.system.calcTimeOfNextScheduledEvent(I->getState(), tSched, schedIds, lastEventTime != I->getTime());
+            }
+            Integrator::SuccessfulStepStatus st = I->stepTo(tReport, tSched);
+            ++returns;
+            const std::string sn = Integrator::getSuccessfulStepStatusString(st);
+            run.count("opt-status:" + sn);
+            J.state(*I, I->getState(), I->isStateInterpolated(), sn.c_str());
+            J.postEvent = 0;
+            if (st == Integrator::EndOfSimulation) { ended = true; break; }
+            if (c.stepctl == SC_ADAPTIVE && st == Integrator::TimeHasAdvanced && c.tol == 0 && getenv("C21_CALIB_H")) { char b[64]; snprintf(b, sizeof b, "%+03d", (int)std::floor(2 * std::log2(I->getPreviousStepSizeTaken()))); run.count(std::string("calibadapt:") + integ + "/acc=" + (c.acc ? "1e-6" : "1e-3") + "/2log2(h)=" + b); }
+            if (c.stepctl == SC_MIN_B && st == Integrator::TimeHasAdvanced && I->getPreviousStepSizeTaken() <= hOf(c, vs) * (1 + 1e-12)) reachedMin = true;
+            if (st == Integrator::ReachedReportTime) { while (t0 + k * REPORT_DT <= I->getTime()) ++k; }
+            else if (st == Integrator::ReachedEventTrigger || st == Integrator::ReachedScheduledEvent) {
+                const bool sched = st == Integrator::ReachedScheduledEvent;
+                HandleEventsResults hres;
+                ctl.haveOut = false;
+                if (sched) { M.system.handleEvents(I->updAdvancedState(), Event::Cause::Scheduled, schedIds, hopts, hres); lastEventTime = I->getTime(); }
+                else M.system.handleEvents(I->updAdvancedState(), Event::Cause::Triggered, I->getTriggeredEvents(), hopts, hres);
+                if (ctl.haveOut) {   // the handler changed q/u: is its output within tolerance?
+                    State tmp = I->getAdvancedState();
+                    bool off = true;
+                    try { M.system.realize(tmp, Stage::Velocity); const Norms n = normsOf(S, tmp, c.inf != 0); off = !(within(n.perr, tolUse) && within(n.quat, tolUse) && within(n.verr, tolUse)); } catch (const std::exception&) { off = true; }
+                    J.handlerLeftOff = off; J.checkOut = true;
+                    run.count(std::string("handler-output:") + evName(ev) + (off ? "/off-manifold" : "/within-tolerance"));
+                }
+                I->reinitialize(hres.getLowestModifiedStage(), hres.getExitStatus() == HandleEventsResults::ShouldTerminate);
+                // after a triggered event the next return is the upper end of the event window (or the handler's state); after a
+                // scheduled event whose handler changed nothing the next return is simply the end of the next step
+                ++eventsHandled; J.postEvent = !sched ? 1 : (hres.getLowestModifiedStage() < Stage::Report ? 2 : 0);
+            }
+        }
+        run.count(!ended ? "opt-run:truncated-after-max-returns" : "opt-run:completed");
+    } catch (const std::exception& e) {
+        run.count("opt-run:integration-threw/" + tag);
+        if (run.verbose) printf("  %s: threw %s\n", desc.c_str(), e.what());
+    }
+    run.count(std::string("opt-events-handled:") + evName(ev), eventsHandled);
+    if (ev != EV_NONE && !eventsHandled) run.count(std::string("opt-run:event-not-reached/") + tag);
+    if (c.stepctl == SC_MIN_B) run.count(std::string("opt-run:minimum-step-size-") + (reachedMin ? "reached/" : "not-reached/") + integ);
+    run.count("opt-states-judged/" + tag, J.nJudged);
+    run.count("opt-interpolated-states/" + integ, J.nInterp);
+    run.count("opt-interpolated-states-not-projected(by-option)/" + integ, J.nUnprojected);
+    run.outcome(verif::hashMix(verif::hashPod(J.nJudged * 7 + eventsHandled), verif::hashPod(J.nInterp * 1000 + c.integ * 10 + c.stepctl)));
+    if (run.verbose) printf("  %s: %lld states judged, %lld interpolated, %d events handled\n", desc.c_str(), (long long)J.nJudged, (long long)J.nInterp, eventsHandled);
+}
+
+}  // namespace opt
+
 int main(int argc, char** argv) {
     verif::Run run("C21", argc, argv);
-    run.setDeadline(900, 5400);
+    run.setDeadline(900, 9000);
     if (const char* mv = getenv("C21_MAXV")) run.maxViolsPerKey = atoi(mv);
     const bool th = run.thorough();
     const int vs = (int)(((run.seed % 3) + 3) % 3);
     int64_t onlyLo = 0, onlyHi = INT64_MAX;
     if (const char* o = getenv("C21_ONLY")) { sscanf(o, "%ld:%ld", &onlyLo, &onlyHi); run.exhaustive = false; }
+    int optLo = -1; if (const char* o = getenv("C21_OPTRUN")) { optLo = atoi(o); run.exhaustive = false; }   // replay aid: only this run= of an options item
+    int optScen = -1; if (const char* o = getenv("C21_OPTSCEN")) { optScen = atoi(o); run.exhaustive = false; }   // development aid: only this scenario
+    int optInteg = -1; if (const char* o = getenv("C21_OPTINTEG")) { optInteg = atoi(o); run.exhaustive = false; }   // development aid: only this integrator
+    const bool skipOld = getenv("C21_SKIPOLD") != nullptr;   // development aid (marks the run non-exhaustive)
+    if (skipOld) run.exhaustive = false;
     run.rule = "E3. constrained systems: constraint sets over the 20 canonical instances of the C08 tables (quick: every singleton of table 0 on host tree (i mod 3) and the 20 cyclic neighbour pairs {i,i+1} of table 0 on host tree (i mod 3); thorough: every singleton of both tables on every host tree and every unordered pair {i<j} of table 0 on host tree ((i+j) mod 3)) x quaternion/Euler x variant {plain, Motion::Sinusoid(Position) on R4, R2 locked at Position level, triggered time witness at t0+0.137} (pairs: plain only); gravity; initial state = generic state (value set seed%3) assembled by cons::makeState(4). "
                "quaternion models: {Ball, Free, Ellipsoid, LineOrientation, FreeLine, CustomBall} x direction x {base with a Pin child, tip on a Pin parent}, generic initial state. "
-               "each x integrator (RungeKuttaMerson, RungeKutta3, RungeKuttaFeldberg, RungeKutta2, ExplicitEuler, Verlet, SemiExplicitEuler(h=0.004), SemiExplicitEuler2, CPodes BDF, CPodes Adams) x (accuracy, constraint tolerance) in {(1e-3,default),(1e-6,1e-8)} (thorough: {1e-3,1e-6} x {default,1e-8}) x setProjectEveryStep x {interpolation allowed + projected, allowed + not projected, not allowed} x setUseInfinityNorm; horizon 0.3 (at most 300 returned states), report grid 0.0125, setReturnEveryInternalStep(true). distinct = distinct tuple; every run is non-trivial.";
+               "each x integrator (RungeKuttaMerson, RungeKutta3, RungeKuttaFeldberg, RungeKutta2, ExplicitEuler, Verlet, SemiExplicitEuler(h=0.004), SemiExplicitEuler2, CPodes BDF, CPodes Adams) x (accuracy, constraint tolerance) in {(1e-3,default),(1e-6,1e-8)} (thorough: {1e-3,1e-6} x {default,1e-8}) x setProjectEveryStep x {interpolation allowed + projected, allowed + not projected, not allowed} x setUseInfinityNorm; horizon 0.3 (at most 300 returned states), report grid 0.0125, setReturnEveryInternalStep(true). "
+               "OPTIONS section: integrator (10) x scenario (9: no event; {triggered time witness at t0+0.0537, scheduled events at t0+0.0411 and t0+0.0925} x handler {changes nothing, adds 10 x tolerance x fixed pattern to every q, the same to every u, jumps q by 2e-3 and u by 5e-2 x pattern and projects to the tolerance and norm in use}) x model (62: every singleton of table 0 on host tree (i mod 3) x quaternion/Euler, the 22 quaternion models) "
+               "x step-size control (6: adaptive, setFixedStepSize(hA|hB|hC), setMinimumStepSize(hB), setMaximumStepSize(hA); hA<hB<hC from a table per integrator x accuracy, calibrated so that the error estimate is mostly below accuracy / between accuracy and 2^p accuracy / above) x setProjectEveryStep (3: not called, false, true) "
+               "x setProjectInterpolatedStates (2) x setUseInfinityNorm (2) x setConstraintTolerance (3: not called, = accuracy (10 x looser than the default), = accuracy/100) x accuracy (2: 1e-3, 1e-6); setReturnEveryInternalStep(true), interpolation allowed. thorough: the complete product (432 option vectors per integrator x scenario x model); "
+               "quick: step-size control x setProjectEveryStep complete (18 per integrator x scenario x model), the other four option dimensions rotate with (5 model + 7 scenario + 11 stepctl + 13 projectEveryStep) mod 24, so every option value and every combination of the four occurs with every integrator x scenario x stepctl x projectEveryStep. distinct = distinct tuple; every run is non-trivial.";
     run.assumptions = {"continuous values only from the fixed tables", "norm recomputed in long double and accepted if <= tolerance*(1+1e-9)+1e-13", "interpolated states are exempt from the manifold clause when setProjectInterpolatedStates(false)",
-        "exceptions thrown by initialize/stepTo are allowed outcomes (counted)", "runs are cut after 300 returned states (counted)", "the integrator is driven directly (Integrator::stepTo + System::handleEvents + reinitialize, as TimeStepper does)"};
+        "exceptions thrown by initialize/stepTo are allowed outcomes (counted)", "runs are cut after 300 returned states (counted)", "the integrator is driven directly (Integrator::stepTo + System::handleEvents + reinitialize, as TimeStepper does; scheduled event times from System::calcTimeOfNextScheduledEvent)",
+        "documented (System::handleEvents): a handler that changes continuous variables must itself leave the state within the tolerance; the state returned right after a handler that did not (10 x tolerance off) is not judged (counted unspecified:...), every later state is",
+        "white box only to NAME the regime of an already violating step taken at a fixed / minimum step size (twin integrator re-attempts the step: error estimate vs 2^p x accuracy, convergence of attemptDAEStep); no oracle depends on it"};
 
     OptSpace full{{0, 1, 2, 3, 4, 5, 6, 7, 8, 9}, th ? std::vector<std::pair<int, int> >{{0, 0}, {0, 1}, {1, 0}, {1, 1}} : std::vector<std::pair<int, int> >{{0, 0}, {1, 1}}, {0, 1}, {0, 1, 2}, {0, 1}};
     struct SetDef { std::vector<int> inst; int list, host; };
@@ -252,7 +598,7 @@ int main(int argc, char** argv) {
     {
         verif::Odometer od; od.dim("integ", NINTEG); od.dim("event", 2); od.dim("presc", 3); od.dim("coord", 2); od.dim("set", (int64_t)sets.size());
         run.parallel("constrained", od.size(), [&](int64_t idx) {
-            if (idx < onlyLo || idx >= onlyHi) return;
+            if (skipOld || idx < onlyLo || idx >= onlyHi) return;
             auto d = od.digits(idx);
             const int integ = d[0], ev = d[1], presc = d[2], euler = d[3]; const SetDef& sd = sets[d[4]];
             if (ev && presc) { run.count("skipped:event-combined-only-with-presc-none"); return; }
@@ -292,7 +638,7 @@ int main(int argc, char** argv) {
         for (int k : kinds) for (int dir = 0; dir < 2; ++dir) for (int role = 0; role < 2; ++role) { if (dir && !mb::kindReversible(k)) continue; qms.push_back({k, dir, role}); }
         verif::Odometer od; od.dim("integ", NINTEG); od.dim("model", (int64_t)qms.size());
         run.parallel("quaternion-models", od.size(), [&](int64_t idx) {
-            if (idx < onlyLo || idx >= onlyHi) return;
+            if (skipOld || idx < onlyLo || idx >= onlyHi) return;
             auto d = od.digits(idx); const QM& qm = qms[d[1]];
             mb::BodySpec g; g.kind = qm.kind; g.dir = qm.dir; g.frames = 3; g.mass = 0;
             mb::BodySpec p; p.kind = mb::KPin; p.frames = 3; p.mass = 1;
@@ -307,6 +653,68 @@ int main(int argc, char** argv) {
             OptSpace sp = full; sp.integs = {d[0]};
             runAll(run, S, init, sp, 0);
             if (idx % 41 == 0) run.sample(S.name);
+        });
+    }
+    // ------------------------------------------------------------ OPTIONS: step-size control x projection options x norms x tolerances x event handlers
+    {
+        using namespace opt;
+        const int kinds[] = {mb::KBall, mb::KFree, mb::KEllipsoid, mb::KLineOrientation, mb::KFreeLine, mb::KCustomBall};
+        struct QM { int kind, dir, role; }; std::vector<QM> qms;
+        for (int k : kinds) for (int dir = 0; dir < 2; ++dir) for (int role = 0; role < 2; ++role) { if (dir && !mb::kindReversible(k)) continue; qms.push_back({k, dir, role}); }
+        const int nCons = NINST * 2, nModels = nCons + (int)qms.size();      // model = singleton i of table 0 on host (i mod 3) x quaternion/Euler, then the quaternion models
+        verif::Odometer od; od.dim("integ", NINTEG); od.dim("scenario", NEV); od.dim("model", nModels);
+        run.parallel("options", od.size(), [&](int64_t idx) {
+            if (idx < onlyLo || idx >= onlyHi) return;
+            auto d = od.digits(idx);
+            const int integ = d[0], ev = d[1], model = d[2];
+            if ((optScen >= 0 && ev != optScen) || (optInteg >= 0 && integ != optInteg)) return;
+            HandlerCtl ctl;
+            Sut S; State init;
+            if (model < nCons) {
+                const int i = model / 2, euler = model % 2, host = i % 3;
+                S.M = mb::build(cons::hostSpecs(host), euler != 0);
+                mb::Model& M = *S.M;
+                cons::ConsSpec cs = instanceSpec(i, 0);
+                if (!cons::legalCombination(cs, host, euler != 0)) { run.count("opt-skipped:illegal-instance"); return; }
+                cons::Added a = cons::addConstraint(M, cs, host);
+                S.touchesQuat = a.touchesQuaternionCoordinate;
+                addGravity(M);
+                ctl.sys = &M.system;
+                if (evKind(ev) == 1) M.system.addEventHandler(new TrigHandler(&ctl)); else if (evKind(ev) == 2) M.system.addEventHandler(new SchedHandler(&ctl));
+                S.name = "host=" + std::to_string(host) + (euler ? " euler" : " quat") + " set={" + cs.str() + "}";
+                bool ok = true; std::string err;
+                try { init = cons::makeState(M, 4, vs, &ok, &err); } catch (const std::exception& e) { ok = false; err = e.what(); }
+                if (!ok) { run.count("opt-skipped:initial-state-not-assemblable"); return; }
+                for (size_t b = 0; b < M.bodies.size(); ++b) if (!M.euler && (M.specs[b].kind == mb::KBall || M.specs[b].kind == mb::KFree)) S.quatStart.push_back((int)M.bodies[b].getFirstQIndex(init));
+            } else {
+                const QM& qm = qms[model - nCons];
+                mb::BodySpec g; g.kind = qm.kind; g.dir = qm.dir; g.frames = 3; g.mass = 0;
+                mb::BodySpec p; p.kind = mb::KPin; p.frames = 3; p.mass = 1;
+                std::vector<mb::BodySpec> specs; int gi;
+                if (qm.role == 0) { g.parent = -1; p.parent = 0; specs = {g, p}; gi = 0; } else { p.parent = -1; g.parent = 0; specs = {p, g}; gi = 1; }
+                S.M = mb::build(specs, false); mb::Model& M = *S.M;
+                addGravity(M);
+                ctl.sys = &M.system;
+                if (evKind(ev) == 1) M.system.addEventHandler(new TrigHandler(&ctl)); else if (evKind(ev) == 2) M.system.addEventHandler(new SchedHandler(&ctl));
+                init = mb::makeState(M, 1, vs);
+                S.quatStart.push_back((int)M.bodies[gi].getFirstQIndex(init));
+                S.name = std::string("quaternion-model ") + mb::kindName(qm.kind) + (qm.dir ? "/rev" : "/fwd") + (qm.role ? "/tip" : "/base");
+            }
+            S.name += std::string(" scenario=") + evName(ev) + " vs=" + std::to_string(vs) + " [" + od.describe(idx) + "]";
+            run.count("items-run:options");
+            int n = 0;
+            for (int sc = 0; sc < NSC; ++sc) for (int pes = 0; pes < NPES; ++pes) {
+                // thorough: the complete product; quick: (stepctl x projectEveryStep) complete, the other four option dimensions
+                // rotate with (model, scenario, stepctl, projectEveryStep) so that every combination of them occurs with every
+                // integrator x scenario x stepctl x projectEveryStep over the models (5 is coprime to 24)
+                const int r0 = th ? 0 : (model * 5 + ev * 7 + sc * 11 + pes * 13) % NREST, r1 = th ? NREST : r0 + 1;
+                for (int r = r0; r < r1; ++r) {
+                    Cfg c{integ, sc, pes, r % NINTERP, (r / NINTERP) % NINF, (r / (NINTERP * NINF)) % NTOL, (r / (NINTERP * NINF * NTOL)) % NACC};
+                    if (optLo >= 0 && n != optLo) { ++n; continue; }
+                    integrateOpt(run, S, init, c, vs, ev, ctl, S.name + " run=" + std::to_string(n++) + " {" + cfgStr(c, vs) + "}");
+                }
+            }
+            if (idx % 211 == 0) run.sample(S.name);
         });
     }
     return run.finish();
